@@ -26,9 +26,10 @@ LEVEL_TEXT = ("Composition theorem (C05_composition, closed): for every program 
               "lemma under updates of modules it never enters; the special case of apply_one is shown transparent by a simulation against the plain "
               "line rule. Supporting theorems for all member lists / statement lists: is_wildcard_exposed = CPython's `import *` set; visitor + "
               "line rule = in-order execution (later statement wins); an assembled __all__ expands to CPython's list; Alias.members rebases every path "
-              "under the alias. The side conditions are exactly the per-module findings (F4 same line, F5 submodule exposure, F6 extend, F11 renamed "
-              "__all__ source, F12 flow-insensitive source) plus the generator's name discipline; each finding has a refutation proved by computation "
-              "on a witness that is replayed on the implementation (F3-F8, F10-F12; F1, F2, F9 repaired). The faithful model of the real traversal "
+              "under the alias. The side conditions are exactly the per-module findings (F4 same line, F5 submodule exposure, F12 flow-insensitive "
+              "source of an assembled __all__) plus the generator's name discipline; each open finding has a refutation proved by computation on a "
+              "witness that is replayed on the implementation (F3, F4, F5, F7, F8, F10, F12); F1, F2, F6, F9, F11 are repaired, their witnesses are "
+              "regression cases and F6/F11 programs are now inside the theorem. The faithful model of the real traversal "
               "(seen-sets, pending expansions, KeyError skips) is tied to the code by differential runs: model vs griffe.load vs a fresh interpreter.")
 LEVEL_NOTE = ("Trusted: Coq kernel, extraction, the package->model abstraction in this file, CPython as authority. NOT proved: that the real traversal "
               "(griffe_load: expand_exports over the whole tree, then expand_wildcards, each with seen-sets) equals the dependency-order schedule "
@@ -47,7 +48,7 @@ RULE = ("hand-written packages (one per rule of the anchored code) and the findi
         "flat plus 1-2 imports pointing forward in the order; model-vs-implementation only). A random dependency order (each __init__ before, after "
         "or among its descendants), every module importing only from earlier ones with from-import (absolute/relative, aliased), wildcard, "
         "`import a.b.c [as x]`, `from pkg import submodule [as x]`, 1-6 statements over 6 names so that rebinding is frequent, __all__ = / += in "
-        "list, tuple, +, starred and annotated forms placed anywhere, with duplicate entries, assembled from 0-3 other modules' __all__ in ONE "
+        "list, tuple, +, starred and annotated forms and __all__.extend(...) placed anywhere, with duplicate entries, assembled from 0-3 other modules' __all__ in ONE "
         "statement (attribute form and name form mixed, the same module twice) through a module alias, a re-exported module alias, an imported "
         "__all__ name or a re-exported renamed __all__ name; source names are listed in __all__ themselves (so wildcard imports rebind them) and "
         "are sometimes bound again after use (flow-sensitivity). Submodule attachment order is read from the directory listing (os.walk), as the "
@@ -59,9 +60,10 @@ TRUSTED = ["abstraction: harness renders the abstract package to files, records 
            "flags reads of modules whose __spec__._initializing is set"]
 ASSUMPTIONS = ["acyclic = no module's namespace is read while it is being initialised (checked dynamically in the interpreter); the theorems use a "
                "dependency order in which every import targets an earlier module (py_import fails otherwise)",
-               "composition theorem: wf_prog (one statement per line, no __all__.extend, plain bound names, a submodule name bound only to that "
-               "submodule, sources of an assembled __all__ bound once before use with no wildcard import in between) and wf_run (wildcard imports keep "
-               "submodule names, bound public submodules of a package without __all__ are recorded imports): decidable, evaluated on every package",
+               "composition theorem: wf_prog (one statement per line, plain bound names, a submodule name bound only to that submodule, sources of an "
+               "assembled __all__ bound once, by an import before use) and wf_run (wildcard imports keep submodule names, bound public submodules of a "
+               "package without __all__ are recorded imports, no wildcard import between the import of a source and its use exposes the source's "
+               "name): decidable, evaluated on every package",
                "every defined object is a class or a function, so its identity is recoverable from __module__/__qualname__"]
 ALLOWED_AXIOMS = []
 
@@ -662,7 +664,7 @@ def gen_body(rng, mod, earlier, sim, mods, rich):
                     chain2 = [(tuple(e["path"]), n) for e in earlier for n, v in sim.ns[tuple(e["path"])].items()
                               if v == ("all", dotted(tp)) and not n.startswith("_")]
                     if chain2 and rng.random() < 0.3:
-                        # the list itself is reached through another module's namespace (a re-exported, renamed __all__): finding F11
+                        # the list itself is reached through another module's namespace (a re-exported, renamed __all__)
                         yp, yn = rng.choice(chain2)
                         pre.append(["from", list(yp), yn, local, style()])
                     else:
@@ -689,7 +691,8 @@ def gen_body(rng, mod, earlier, sim, mods, rich):
                     form = rng.choice(["tuple"] + (["tplus"] if uniform and ftype in (None, "tuple") else []))
                 else:
                     form = rng.choice(["list", "tuple"] + ([plus_form] if uniform else []))
-                st = ["addall", form, items]
+                # `__all__.extend(...)` takes any iterable, but only a list has it
+                st = ["extall" if own_type == "list" and rng.random() < 0.4 else "addall", form, items]
                 pos = rng.randint(first_pos + 1, len(body))        # `+=` after the `=`
             listed_total += [i[1] for i in items if i[0] == "s"]
             body[pos:pos] = pre + [st]
@@ -697,7 +700,7 @@ def gen_body(rng, mod, earlier, sim, mods, rich):
         sim.alltype[me] = own_type
         if rng.random() < 0.06:
             # flow-sensitivity: a source name is bound again AFTER the __all__ statement that reads it (CPython has already read the first binding)
-            uses = [(k2, it) for k2, st2 in enumerate(body) if st2[0] in ("setall", "addall") for it in st2[2] if it[0] != "s"]
+            uses = [(k2, it) for k2, st2 in enumerate(body) if st2[0] in ("setall", "addall", "extall") for it in st2[2] if it[0] != "s"]
             if uses:
                 k2, it = rng.choice(uses)
                 if it[0] == "attr":
@@ -923,7 +926,7 @@ def _m(path, init, body):
 
 
 def all_witnesses():
-    """finding id -> package: the witnesses of the open findings and of the repaired ones (F1, F2, F9)."""
+    """finding id -> package: the witnesses of the open findings and of the repaired ones (F1, F2, F6, F9, F11)."""
     W = {}
     # F1: expand_exports returns at a package without __all__ before visiting its submodules
     W["C05-F1"] = {"name": "wf1", "order": ["wf1.a", "wf1.b", "wf1"], "modules": [
@@ -954,7 +957,7 @@ def all_witnesses():
         _m(["wf5"], True, [["from", ["wf5", "m0"], "f", None, "rel"]]),
         _m(["wf5", "m0"], False, [["def", "f", "func"]]),
         _m(["wf5", "m1"], False, [["star", ["wf5"], "abs"]])]}
-    # F6: __all__.extend(...) is ignored
+    # F6 (repaired): __all__.extend(...) was ignored
     W["C05-F6"] = {"name": "wf6", "order": ["wf6", "wf6.a", "wf6.d", "wf6.e"], "modules": [
         _m(["wf6"], True, []),
         _m(["wf6", "a"], False, [["def", "f", "func"]]),
@@ -991,7 +994,7 @@ def all_witnesses():
         _m(["wf10", "s"], True, [["setall", "list", [["s", "h"]]], ["def", "h", "func"]]),
         _m(["wf10", "s", "n1"], False, [["star", ["wf10", "m1"], "rel"], ["import", ["wf10", "m1"], "w2"],
                                         ["setall", "list", [["attr", "w2", "list"]]]])]}
-    # F11: a name bound to another module's __all__ and imported again from the intermediate module: expanded to the intermediate module's exports
+    # F11 (repaired): a name bound to another module's __all__ and imported again from the intermediate module was expanded to that module's exports
     W["C05-F11"] = {"name": "wf11", "order": ["wf11", "wf11.a", "wf11.b", "wf11.c"], "modules": [
         _m(["wf11"], True, []),
         _m(["wf11", "a"], False, [["setall", "list", [["s", "f"]]], ["def", "f", "func"]]),
@@ -1009,7 +1012,7 @@ def all_witnesses():
     return W
 
 
-REPAIRED = ("C05-F1", "C05-F2", "C05-F9")
+REPAIRED = ("C05-F1", "C05-F2", "C05-F6", "C05-F9", "C05-F11")
 
 
 def witness_packages():
@@ -1027,7 +1030,7 @@ def has_stmt(pkg, tag):
 
 def renamed_all_sources(pkg):
     """[module, local]: a name-form source of an __all__ whose binding imports a name other than `__all__` (a renamed list re-exported by an
-    intermediate module).  Python mirror of the Coq predicate `renamed_all_source` (finding F11)."""
+    intermediate module; former finding F11).  Used to observe the input distribution only."""
     out = []
     for m in pkg["modules"]:
         sts = [st for _, st in stmt_tags({"modules": [m]})]
@@ -1096,8 +1099,6 @@ def classify(pkg, view, oracle, ml, ms_view, dmi, leak):
     ds = {(x[0], x[1]): x for x in diff_views(sched, oracle)}
     out = []
     same_line = has_stmt(pkg, "semi")
-    ext = has_stmt(pkg, "extall")
-    renamed = bool(renamed_all_sources(pkg))
     flow = bool(flow_sensitive_sources(pkg, oracle))
     for x in d:
         key = (x[0], x[1])
@@ -1113,12 +1114,8 @@ def classify(pkg, view, oracle, ml, ms_view, dmi, leak):
             # the dependency-order schedule of the same per-module rules differs from CPython in the same way
             if f5_signature(x, oracle):
                 out.append((x, "C05-F5"))
-            elif ext and not dmi:
-                out.append((x, "C05-F6"))
             elif same_line and not dmi:
                 out.append((x, "C05-F4"))
-            elif renamed and not dmi:
-                out.append((x, "C05-F11"))
             elif flow and not dmi:
                 out.append((x, "C05-F12"))
             else:
@@ -1170,7 +1167,7 @@ def hand_packages():
         _m(["h2", "s", "n0"], False, [["from", ["h2", "s", "t", "d0"], "K", "g", "rel"], ["import", ["h2", "s", "t", "d0"], "x"]]),
         _m(["h2", "s", "t"], True, [["star", ["h2", "s", "t", "d0"], "rel"], ["setall", "tuple", [["s", "K"], ["s", "d0"]]]]),
         _m(["h2", "s", "t", "d0"], False, [["def", "K", "class"], ["def", "_Q", "class"]])]})
-    # witnesses of repaired findings (F1, F2, F9): they must now agree with the interpreter
+    # witnesses of repaired findings (F1, F2, F6, F9, F11): they must now agree with the interpreter
     H.extend(v for k, v in all_witnesses().items() if k in REPAIRED)
     return H
 
@@ -1415,7 +1412,7 @@ def search(ctx):
                     continue
                 if not view["error"] and trig["f7"] and x[2] is not None and x[3] is not None and x[1] != "__all__":
                     continue
-                if not view["error"] and trig["f11"] and (x[1] == "__all__" or x[2] is None or x[3] is None):
+                if not view["error"] and trig["f12"] and (x[1] == "__all__" or x[2] is None or x[3] is None):
                     continue
                 ctx.property_failure({"package": pkg["name"], "order": pkg["order"], "sources": package_sources(pkg), "abstract": pkg["modules"]},
                                      {"module": x[0], "name": x[1], "griffe": x[2], "cpython": x[3]}, None)
@@ -1434,7 +1431,7 @@ def py_triggers(pkg):
         st[0] == "from" and st[2] != "__all__" and st[3] and st[3][0] == "w" for m in mods.values() for _, st in stmt_tags({"modules": [m]}))
     # an explicitly imported name may be re-bound by a wildcard import of the same module (replaced alias member: F7)
     f7 = any(stars[p] and any(st[0] in ("from", "import") for _, st in stmt_tags({"modules": [m]})) for p, m in mods.items())
-    return {"f3": f3, "f7": f7, "f8": f8, "f11": bool(renamed_all_sources(pkg)) or bool(flow_sensitive_sources(pkg))}
+    return {"f3": f3, "f7": f7, "f8": f8, "f12": bool(flow_sensitive_sources(pkg))}
 
 
 def replay(ctx, data):
